@@ -215,7 +215,9 @@ func init() {
 
 	// ---- fmt / errors / log ----
 	reg("fmt.Errorf", func(in *Interp, fn *ssa.Function, args []Value) Value { return in.fmtErrorf(args) })
-	reg("fmt.Sprintf", func(in *Interp, fn *ssa.Function, args []Value) Value { return in.fmtSprintf(args[0].(StrV), args[1].(SliceV)) })
+	reg("fmt.Sprintf", func(in *Interp, fn *ssa.Function, args []Value) Value {
+		return in.fmtSprintf(args[0].(StrV), args[1].(SliceV))
+	})
 	reg("fmt.Sprint fmt.Sprintln", func(in *Interp, fn *ssa.Function, args []Value) Value { return in.constString("<fmt.Sprint>") })
 	reg("fmt.Fprintf fmt.Fprint fmt.Fprintln fmt.Printf fmt.Println fmt.Print", func(in *Interp, fn *ssa.Function, args []Value) Value {
 		return TupleV{in.ctx.Const(64, 0), &IfaceV{}}
